@@ -1232,7 +1232,10 @@ def translate_module(src_root, relfile, specs):
             parts.append(indent(tr.function(fn, relfile)))
         except Untranslatable as ex:
             raise Untranslatable("%s -> %s: %s" % (sp.qualname, sp.leanname, ex))
-        fps["%s/%s" % (sp.qualname, sp.leanname)] = hashlib.sha256(ast.dump(fn).encode()).hexdigest()[:16]
+        # a PART of a function (the body of its loop) is reported under its own name, so that tools/coverage_map.py does not
+        # count the whole function as translated
+        fps["%s%s/%s" % (sp.qualname, "[%s]" % sp.part if sp.part else "", sp.leanname)] = \
+            hashlib.sha256(ast.dump(fn).encode()).hexdigest()[:16]
         for q in sp.inlines:
             fps["%s/inlined" % q] = hashlib.sha256(ast.dump(find_function(tree, q)).encode()).hexdigest()[:16]
     return "\n".join(parts), fps
